@@ -30,7 +30,7 @@ LEVEL_TEXT = ("Exploration over all classes: each run converts hundreds of harne
 LEVEL_NOTE = "Trusts ref_types.py and the generator's structure; expected values are computed from the TEXT, not from the library."
 DESIGN_REF = "DESIGN.md §3 C03"
 MIN_COUNTERS = {"quick": {"documents": 1500, "leaves_compared": 20000, "classes": 380, "datetime_leaves": 1500, "enum_tokens_read": 2500},
-                "thorough": {"documents": 20000, "leaves_compared": 300000, "classes": 380, "datetime_leaves": 20000, "enum_tokens_read": 2500}}
+                "thorough": {"documents": 150000, "leaves_compared": 2000000, "classes": 380, "datetime_leaves": 20000, "enum_tokens_read": 2500}}
 
 V1HDR = "OFXHEADER:100\r\nDATA:OFXSGML\r\nVERSION:160\r\nSECURITY:NONE\r\nENCODING:UNICODE\r\nCHARSET:NONE\r\nCOMPRESSION:NONE\r\nOLDFILEUID:NONE\r\nNEWFILEUID:NONE\r\n\r\n"
 V2HDR = '<?xml version="1.0" encoding="UTF-8" standalone="no"?>\r\n<?OFX OFXHEADER="200" VERSION="220" SECURITY="NONE" OLDFILEUID="NONE" NEWFILEUID="NONE"?>\r\n'
@@ -323,7 +323,7 @@ def run_shard(ctx):
         return
     classes = list(ref_decl.all_classes().items())
     lex = Lex(ctx, ctx.rng)
-    per = 5 if ctx.tier == "quick" else 60
+    per = 5 if ctx.tier == "quick" else 500
     for ci, (name, cls) in enumerate(classes):
         if ci % ctx.nshards != ctx.shard:
             continue
